@@ -283,8 +283,12 @@ class SnmpSession(object):
             SnmpError: On other SNMP-related errors.
         """
 
+        # `oids` may be a one-shot iterable and sender() may run twice
+        # (when the send buffer is full), so materialize it only once
+        req = list(oids)
+
         def sender() -> None:
-            self._sock.send_get_many(list(oids))
+            self._sock.send_get_many(req)
 
         await self._send(sender)
         return await self._recv(self._sock.recv_get_many)
